@@ -8,6 +8,10 @@ OCI-Chunk-Min-Length, Location, Link, query escaping, the JSON list bodies) — 
 characterisation where they are not (the empty range F3, the one-byte upload).
 Part 2: for every request kind, `clientDecode (serverResp answer)` is the backend's answer restricted to
 what the wire carries; each theorem says what is lost.
+Part 2b: F31 (fixed): a call by digest reports the digest that was ASKED FOR, whatever the answer's header says
+(`client_reports_requested_digest`); the round trips of Part 2 that said "the header's digest arrives" for such calls
+now assume that the backend's answer carries the digest asked for (`hans`), their old forms are refuted
+(`…_F31_counterexample`) and the unconditional form is stated beside them (`…_reports_requested`).
 Part 3: `clientDecode` never panics, whatever the answers; the server panics only on an upload ID the
 request codec cannot carry.
 Part 4: an answer without a header the call cannot do without is refused, never defaulted.
@@ -143,22 +147,74 @@ example : Carriable exDesc := ⟨by decide, by decide, by decide⟩
 
 /-- **Blob HEAD** (`ResolveBlob`). Digest and size arrive; the media type does NOT: the handler sets no
 `Content-Type`, the client reports `application/octet-stream` whatever the backend said. -/
+-- F31: new hypothesis `hans` (the backend's answer carries the digest asked for). The client now reports the digest
+-- it asked for, not the header's (client.go `descriptorFromResponse`): without `hans` the old statement is false
+-- (`blobHead_round_trip_F31_counterexample`); what holds unconditionally is `blobHead_reports_requested`.
 theorem blobHead_round_trip (H : Bytes → Bytes) (resolve : Bytes → Option Bytes) (o : SrvOpts) (q : SrvReq)
-    (d : Desc) (known : Bytes) (hk : q.r.kind = .blobHead) (hc : Carriable d) :
+    (d : Desc) (known : Bytes) (hk : q.r.kind = .blobHead) (hc : Carriable d)
+    (hans : known ≠ [] → d.digest = known) :
     ∃ r, serverResp H o q (.desc d) = .resp r ∧
       clientDecode H resolve (.resolveBlob known) [r] =
         .desc { mediaType := octetStream, digest := d.digest, size := d.size } := by
   obtain ⟨h0, hmax, hd⟩ := hc
   have hn : ¬ d.size < 0 := by omega
   refine ⟨_, by simp only [serverResp, hk, handleBlobHead]; rfl, ?_⟩
+  by_cases hkn : known = []
+  · simp [clientDecode, clientResolve, gate, descriptorFromResponse, mkResp, hget_cons_ne,
+      parseContentLength_itoa h0 hmax, hd, isDigest_ne_nil hd, hn, hkn]
+  · have he := hans hkn
+    have hdk : isDigest known = true := he ▸ hd
+    simp [clientDecode, clientResolve, gate, descriptorFromResponse, mkResp, hget_cons_ne,
+      parseContentLength_itoa h0 hmax, hdk, hn, hkn, he]
+
+-- F31: the new hypothesis is satisfiable (a backend that honours `ociregistry.Interface` answers with the digest asked for)
+example : exDigest ≠ [] → exDesc.digest = exDigest := fun _ => rfl
+
+/-- **F31, the new guarantee for `ResolveBlob`.** Whatever digest the backend's answer carries (any well-formed
+one), the descriptor the caller gets has the digest the caller ASKED FOR; the size is the backend's. -/
+theorem blobHead_reports_requested (H : Bytes → Bytes) (resolve : Bytes → Option Bytes) (o : SrvOpts) (q : SrvReq)
+    (d : Desc) (known : Bytes) (hk : q.r.kind = .blobHead) (hc : Carriable d) (hkn : known ≠ []) :
+    ∃ r, serverResp H o q (.desc d) = .resp r ∧
+      clientDecode H resolve (.resolveBlob known) [r] =
+        .desc { mediaType := octetStream, digest := known, size := d.size } := by
+  obtain ⟨h0, hmax, hd⟩ := hc
+  have hn : ¬ d.size < 0 := by omega
+  refine ⟨_, by simp only [serverResp, hk, handleBlobHead]; rfl, ?_⟩
   simp [clientDecode, clientResolve, gate, descriptorFromResponse, mkResp, hget_cons_ne,
-    parseContentLength_itoa h0 hmax, hd, isDigest_ne_nil hd, hn]
+    parseContentLength_itoa h0 hmax, hd, isDigest_ne_nil hd, hn, hkn]
+
+def exDigest2 : Bytes := sha256 ++ cColon :: List.replicate 64 98
+def exDesc2 : Desc := { mediaType := mtImageManifest, digest := exDigest2, size := 5 }
+example : Carriable exDesc2 := ⟨by decide, by decide, by decide⟩
+
+/-- F31: the statement of `blobHead_round_trip` before the fix (no `hans`) is false: a backend that answers
+`ResolveBlob(exDigest)` with a descriptor of another digest is reported to the caller under the digest asked for. -/
+theorem blobHead_round_trip_F31_counterexample :
+    ¬ (∀ (H : Bytes → Bytes) (resolve : Bytes → Option Bytes) (o : SrvOpts) (q : SrvReq) (d : Desc) (known : Bytes),
+        q.r.kind = .blobHead → Carriable d →
+        ∃ r, serverResp H o q (.desc d) = .resp r ∧
+          clientDecode H resolve (.resolveBlob known) [r] =
+            .desc { mediaType := octetStream, digest := d.digest, size := d.size }) := by
+  intro h
+  obtain ⟨r, hr, hc⟩ := h id (fun _ => none) {} { r := { kind := .blobHead } } exDesc2 exDigest rfl
+    ⟨by decide, by decide, by decide⟩
+  obtain ⟨r', hr', hc'⟩ := blobHead_reports_requested id (fun _ => none) {} { r := { kind := .blobHead } } exDesc2 exDigest
+    rfl ⟨by decide, by decide, by decide⟩ (by decide)
+  rw [hr] at hr'
+  cases hr'
+  rw [hc] at hc'
+  revert hc'
+  decide
 
 /-- **Manifest HEAD** (`ResolveManifest`, `ResolveTag`), under every setting of `OmitDigestFromTagGetResponse`:
 media type (an empty one becomes the default), size and digest arrive; with the option on and a request by digest
-the digest is the one the caller asked for (the header is left out). -/
+the digest is the one the caller asked for (the header is left out) — as it is, since fix F31, with the option off. -/
+-- F31: new hypothesis `hans`, for requests BY DIGEST only (by tag the statement is unconditional as before): the
+-- backend's answer carries the digest asked for. Without it the old statement is false when the header is sent
+-- (`manifestHead_round_trip_F31_counterexample`); unconditionally: `manifestHead_reports_requested`.
 theorem manifestHead_round_trip (H : Bytes → Bytes) (resolve : Bytes → Option Bytes) (o : SrvOpts) (q : SrvReq)
-    (d : Desc) (hk : q.r.kind = .manifestHead) (hreq : q.r.tag ≠ [] ∨ isDigest q.r.digest = true) (hc : Carriable d) :
+    (d : Desc) (hk : q.r.kind = .manifestHead) (hreq : q.r.tag ≠ [] ∨ isDigest q.r.digest = true) (hc : Carriable d)
+    (hans : q.r.tag = [] → d.digest = q.r.digest) :
     ∃ r, serverResp H o q (.desc d) = .resp r ∧
       clientDecode H resolve (if q.r.tag ≠ [] then .resolveTag else .resolveManifest q.r.digest) [r] =
         .desc { mediaType := orOctet d.mediaType,
@@ -172,10 +228,55 @@ theorem manifestHead_round_trip (H : Bytes → Bytes) (resolve : Bytes → Optio
     by_cases ho : o.omitDigest = true
     · simp [clientDecode, clientResolve, gate, descriptorFromResponse, mkResp, hget_cons_ne,
           parseContentLength_itoa h0 hmax, hn, ht, ho, hq, orOctet]
-    · simp [clientDecode, clientResolve, gate, descriptorFromResponse, mkResp, hget_cons_ne,
-          parseContentLength_itoa h0 hmax, hd, isDigest_ne_nil hd, hn, ht, ho, orOctet]
+    · have he := hans ht
+      have hdk : isDigest q.r.digest = true := he ▸ hd
+      simp [clientDecode, clientResolve, gate, descriptorFromResponse, mkResp, hget_cons_ne,
+          parseContentLength_itoa h0 hmax, hdk, hn, ht, ho, hq, he, orOctet]
   · simp [clientDecode, clientResolve, gate, descriptorFromResponse, mkResp, hget_cons_ne,
           parseContentLength_itoa h0 hmax, hd, isDigest_ne_nil hd, hn, ht, orOctet]
+
+-- F31: the new hypothesis is satisfiable
+example : ({ r := { kind := .manifestHead, digest := exDigest } } : SrvReq).r.tag = [] →
+    exDesc.digest = ({ r := { kind := .manifestHead, digest := exDigest } } : SrvReq).r.digest := fun _ => rfl
+
+/-- **F31, the new guarantee for `ResolveManifest`** (a request by digest), under every setting of
+`OmitDigestFromTagGetResponse` and whatever digest the backend's answer carries: the caller gets the digest it
+ASKED FOR, with the backend's media type and size. -/
+theorem manifestHead_reports_requested (H : Bytes → Bytes) (resolve : Bytes → Option Bytes) (o : SrvOpts) (q : SrvReq)
+    (d : Desc) (hk : q.r.kind = .manifestHead) (ht : q.r.tag = []) (hreq : isDigest q.r.digest = true) (hc : Carriable d) :
+    ∃ r, serverResp H o q (.desc d) = .resp r ∧
+      clientDecode H resolve (.resolveManifest q.r.digest) [r] =
+        .desc { mediaType := orOctet d.mediaType, digest := q.r.digest, size := d.size } := by
+  obtain ⟨h0, hmax, hd⟩ := hc
+  have hn : ¬ d.size < 0 := by omega
+  have hq : q.r.digest ≠ [] := isDigest_ne_nil hreq
+  refine ⟨_, by simp only [serverResp, hk, handleManifestHead]; rfl, ?_⟩
+  by_cases ho : o.omitDigest = true
+  · simp [clientDecode, clientResolve, gate, descriptorFromResponse, mkResp, hget_cons_ne,
+        parseContentLength_itoa h0 hmax, hn, ht, ho, hq, orOctet]
+  · simp [clientDecode, clientResolve, gate, descriptorFromResponse, mkResp, hget_cons_ne,
+        parseContentLength_itoa h0 hmax, hd, isDigest_ne_nil hd, hn, ht, ho, hq, orOctet]
+
+/-- F31: the statement of `manifestHead_round_trip` before the fix (no `hans`) is false. -/
+theorem manifestHead_round_trip_F31_counterexample :
+    ¬ (∀ (H : Bytes → Bytes) (resolve : Bytes → Option Bytes) (o : SrvOpts) (q : SrvReq) (d : Desc),
+        q.r.kind = .manifestHead → (q.r.tag ≠ [] ∨ isDigest q.r.digest = true) → Carriable d →
+        ∃ r, serverResp H o q (.desc d) = .resp r ∧
+          clientDecode H resolve (if q.r.tag ≠ [] then .resolveTag else .resolveManifest q.r.digest) [r] =
+            .desc { mediaType := orOctet d.mediaType,
+                    digest := if o.omitDigest = true ∧ q.r.tag = [] then q.r.digest else d.digest,
+                    size := d.size }) := by
+  intro h
+  obtain ⟨r, hr, hc⟩ := h id (fun _ => none) {} { r := { kind := .manifestHead, digest := exDigest } } exDesc2 rfl
+    (Or.inr (by decide)) ⟨by decide, by decide, by decide⟩
+  obtain ⟨r', hr', hc'⟩ := manifestHead_reports_requested id (fun _ => none) {}
+    { r := { kind := .manifestHead, digest := exDigest } } exDesc2 rfl rfl (by decide) ⟨by decide, by decide, by decide⟩
+  rw [hr] at hr'
+  cases hr'
+  rw [if_neg (by decide)] at hc
+  rw [hc] at hc'
+  revert hc'
+  decide
 
 /-- **Blob GET** (`GetBlob`). Media type, size and bytes arrive; the digest of the reader's descriptor is the one
 the caller asked for (the server sends `rreq.Digest`, not the backend's). The reader verifies what it relays. -/
@@ -258,18 +359,68 @@ theorem blobGetRange_open_round_trip (H : Bytes → Bytes) (resolve : Bytes → 
     hdg, isDigest_ne_nil hdg, newBlobReader, isDigest_hashable hdg, orOctet]
 
 /-- **Manifest GET** (`GetManifest`, `GetTag`) when the digest header is sent: media type, digest, size, bytes. -/
+-- F31: new hypothesis `hans`, for requests BY DIGEST only (`GetTag` is unconditional as before): the backend's
+-- answer carries the digest asked for. Without it the old statement is false
+-- (`manifestGet_round_trip_F31_counterexample`); unconditionally: `manifestGet_reports_requested`.
 theorem manifestGet_round_trip (H : Bytes → Bytes) (resolve : Bytes → Option Bytes) (o : SrvOpts) (q : SrvReq)
     (d : Desc) (content : Bytes) (hk : q.r.kind = .manifestGet) (ho : o.omitDigest = false) (hc : Carriable d)
-    (known : Bytes) :
+    (known : Bytes) (hans : q.r.tag = [] → known ≠ [] → d.digest = known) :
     ∃ r, serverResp H o q (.reader d content) = .resp r ∧
       clientDecode H resolve (if q.r.tag ≠ [] then .getTag else .getManifest known) [r] =
         .reader { mediaType := orOctet d.mediaType, digest := d.digest, size := d.size } true content := by
   obtain ⟨h0, hmax, hd⟩ := hc
   have hn : ¬ d.size < 0 := by omega
   refine ⟨_, by simp only [serverResp, hk, handleManifestGet]; rfl, ?_⟩
-  by_cases ht : q.r.tag = [] <;>
-  simp [clientDecode, clientRead, gate, descriptorFromResponse, mkResp, hget_cons_ne, ho, ht,
-    parseContentLength_itoa h0 hmax, hd, isDigest_ne_nil hd, hn, newBlobReader, isDigest_hashable hd, orOctet]
+  by_cases ht : q.r.tag = []
+  · by_cases hkn : known = []
+    · simp [clientDecode, clientRead, gate, descriptorFromResponse, mkResp, hget_cons_ne, ho, ht, hkn,
+        parseContentLength_itoa h0 hmax, hd, isDigest_ne_nil hd, hn, newBlobReader, isDigest_hashable hd, orOctet]
+    · have he := hans ht hkn
+      have hdk : isDigest known = true := he ▸ hd
+      simp [clientDecode, clientRead, gate, descriptorFromResponse, mkResp, hget_cons_ne, ho, ht, hkn, he,
+        parseContentLength_itoa h0 hmax, hdk, hn, newBlobReader, isDigest_hashable hdk, orOctet]
+  · simp [clientDecode, clientRead, gate, descriptorFromResponse, mkResp, hget_cons_ne, ho, ht,
+      parseContentLength_itoa h0 hmax, hd, isDigest_ne_nil hd, hn, newBlobReader, isDigest_hashable hd, orOctet]
+
+-- F31: the new hypothesis is satisfiable
+example : ({ r := { kind := .manifestGet, digest := exDigest } } : SrvReq).r.tag = [] → exDigest ≠ [] →
+    exDesc.digest = exDigest := fun _ _ => rfl
+
+/-- **F31, the new guarantee for `GetManifest`** (a read by digest): whatever digest the backend's answer carries,
+the reader's descriptor has the digest the caller ASKED FOR — and that is the digest the reader verifies the bytes
+against (`read_honest` / `read_dishonest`). -/
+theorem manifestGet_reports_requested (H : Bytes → Bytes) (resolve : Bytes → Option Bytes) (o : SrvOpts) (q : SrvReq)
+    (d : Desc) (content : Bytes) (hk : q.r.kind = .manifestGet) (ho : o.omitDigest = false) (hc : Carriable d)
+    (known : Bytes) (hdk : isDigest known = true) :
+    ∃ r, serverResp H o q (.reader d content) = .resp r ∧
+      clientDecode H resolve (.getManifest known) [r] =
+        .reader { mediaType := orOctet d.mediaType, digest := known, size := d.size } true content := by
+  obtain ⟨h0, hmax, hd⟩ := hc
+  have hn : ¬ d.size < 0 := by omega
+  refine ⟨_, by simp only [serverResp, hk, handleManifestGet]; rfl, ?_⟩
+  simp [clientDecode, clientRead, gate, descriptorFromResponse, mkResp, hget_cons_ne, ho,
+    parseContentLength_itoa h0 hmax, hd, isDigest_ne_nil hd, isDigest_ne_nil hdk, hn, newBlobReader,
+    isDigest_hashable hdk, orOctet]
+
+/-- F31: the statement of `manifestGet_round_trip` before the fix (no `hans`) is false. -/
+theorem manifestGet_round_trip_F31_counterexample :
+    ¬ (∀ (H : Bytes → Bytes) (resolve : Bytes → Option Bytes) (o : SrvOpts) (q : SrvReq) (d : Desc) (content : Bytes)
+        (known : Bytes), q.r.kind = .manifestGet → o.omitDigest = false → Carriable d →
+        ∃ r, serverResp H o q (.reader d content) = .resp r ∧
+          clientDecode H resolve (if q.r.tag ≠ [] then .getTag else .getManifest known) [r] =
+            .reader { mediaType := orOctet d.mediaType, digest := d.digest, size := d.size } true content) := by
+  intro h
+  obtain ⟨r, hr, hc⟩ := h id (fun _ => none) {} { r := { kind := .manifestGet, digest := exDigest } } exDesc2 [] exDigest
+    rfl rfl ⟨by decide, by decide, by decide⟩
+  obtain ⟨r', hr', hc'⟩ := manifestGet_reports_requested id (fun _ => none) {}
+    { r := { kind := .manifestGet, digest := exDigest } } exDesc2 [] rfl rfl ⟨by decide, by decide, by decide⟩ exDigest
+    (by decide)
+  rw [hr] at hr'
+  cases hr'
+  rw [if_neg (by decide)] at hc
+  rw [hc] at hc'
+  revert hc'
+  decide
 
 /-- **Manifest GET by digest, digest header omitted**: the descriptor's digest is the requested one. -/
 theorem manifestGet_omitted_by_digest (H : Bytes → Bytes) (resolve : Bytes → Option Bytes) (o : SrvOpts) (q : SrvReq)
@@ -366,15 +517,55 @@ theorem delete_round_trip (H : Bytes → Bytes) (resolve : Bytes → Option Byte
 
 /-- **Mount** (`MountBlob`). Only the digest arrives: the descriptor has size 0 and the default media type, whatever
 the backend answered. -/
+-- F31: new hypothesis `hans` (the backend's answer carries the digest asked for); without it the old statement is
+-- false (`mount_round_trip_F31_counterexample`); unconditionally: `mount_reports_requested`.
 theorem mount_round_trip (H : Bytes → Bytes) (resolve : Bytes → Option Bytes) (o : SrvOpts) (q : SrvReq)
-    (d : Desc) (known : Bytes) (hk : q.r.kind = .blobMount) (hd : isDigest d.digest = true) :
+    (d : Desc) (known : Bytes) (hk : q.r.kind = .blobMount) (hd : isDigest d.digest = true)
+    (hans : known ≠ [] → d.digest = known) :
     ∃ r, serverResp H o q (.desc d) = .resp r ∧
       hget r.hdr hLocation = sV2Slash ++ q.r.repo ++ strBytes "/blobs/" ++ q.r.digest ∧
       clientDecode H resolve (.mountBlob known) [r] =
         .desc { mediaType := octetStream, digest := d.digest, size := 0 } := by
   refine ⟨_, by simp only [serverResp, hk, handleBlobMount]; rfl, by simp [mkResp, locationHeaders], ?_⟩
+  by_cases hkn : known = []
+  · simp [clientDecode, clientMount, gate, descriptorFromResponse, mkResp, locationHeaders, hget_cons_ne, hd,
+      isDigest_ne_nil hd, hkn]
+  · have he := hans hkn
+    have hdk : isDigest known = true := he ▸ hd
+    simp [clientDecode, clientMount, gate, descriptorFromResponse, mkResp, locationHeaders, hget_cons_ne, hdk,
+      hkn, he]
+
+-- F31: the new hypothesis is satisfiable
+example : exDigest ≠ [] → exDesc.digest = exDigest := fun _ => rfl
+
+/-- **F31, the new guarantee for `MountBlob`**: whatever digest the backend's answer carries, the caller gets the
+digest it ASKED to be mounted. -/
+theorem mount_reports_requested (H : Bytes → Bytes) (resolve : Bytes → Option Bytes) (o : SrvOpts) (q : SrvReq)
+    (d : Desc) (known : Bytes) (hk : q.r.kind = .blobMount) (hd : isDigest d.digest = true) (hkn : known ≠ []) :
+    ∃ r, serverResp H o q (.desc d) = .resp r ∧
+      clientDecode H resolve (.mountBlob known) [r] =
+        .desc { mediaType := octetStream, digest := known, size := 0 } := by
+  refine ⟨_, by simp only [serverResp, hk, handleBlobMount]; rfl, ?_⟩
   simp [clientDecode, clientMount, gate, descriptorFromResponse, mkResp, locationHeaders, hget_cons_ne, hd,
-    isDigest_ne_nil hd]
+    isDigest_ne_nil hd, hkn]
+
+/-- F31: the statement of `mount_round_trip` before the fix (no `hans`) is false. -/
+theorem mount_round_trip_F31_counterexample :
+    ¬ (∀ (H : Bytes → Bytes) (resolve : Bytes → Option Bytes) (o : SrvOpts) (q : SrvReq) (d : Desc) (known : Bytes),
+        q.r.kind = .blobMount → isDigest d.digest = true →
+        ∃ r, serverResp H o q (.desc d) = .resp r ∧
+          hget r.hdr hLocation = sV2Slash ++ q.r.repo ++ strBytes "/blobs/" ++ q.r.digest ∧
+          clientDecode H resolve (.mountBlob known) [r] =
+            .desc { mediaType := octetStream, digest := d.digest, size := 0 }) := by
+  intro h
+  obtain ⟨r, hr, _, hc⟩ := h id (fun _ => none) {} { r := { kind := .blobMount } } exDesc2 exDigest rfl (by decide)
+  obtain ⟨r', hr', hc'⟩ := mount_reports_requested id (fun _ => none) {} { r := { kind := .blobMount } } exDesc2 exDigest
+    rfl (by decide) (by decide)
+  rw [hr] at hr'
+  cases hr'
+  rw [hc] at hc'
+  revert hc'
+  decide
 
 /-- own chunk size after defaulting (writer.go:161-163) -/
 def ownChunk (c : Int) : Int := if c ≤ 0 then defaultChunkSize else c
@@ -658,6 +849,41 @@ theorem tagsList_refines_serverPage (H : Bytes → Bytes) (o : SrvOpts) (dec : B
     rw [nextLink_none _ _ _ (by rw [hlink])]
     simp [htl']
 
+/-! ## Part 2b — F31: a call BY DIGEST reports the digest that was asked for -/
+
+/-- **The client reports the requested digest** (fix F31, client.go `descriptorFromResponse`). For every call that
+names a digest — `GetBlob`, `GetBlobRange`, `GetManifest`, `ResolveBlob`, `ResolveManifest`, `MountBlob` — and EVERY
+list of answers (any status, any `Docker-Content-Digest` header or none, any body): if the call succeeds, the
+descriptor the caller holds (of the result, or of the reader) has exactly the digest that was asked for. For a
+verified reader that is therefore the digest the bytes are checked against (`read_dishonest`): an answer whose
+header matches other content can no longer be believed. -/
+theorem client_reports_requested_digest (H : Bytes → Bytes) (resolve : Bytes → Option Bytes) (c : Call) (dg : Bytes)
+    (hc : c.requested = some dg) (hne : dg ≠ []) (rs : List Resp) (d : Desc)
+    (h : clientDecode H resolve c rs = .desc d ∨ ∃ v b, clientDecode H resolve c rs = .reader d v b) :
+    d.digest = dg := by
+  apply clientDecode_requested H resolve c hc hne rs
+  rcases h with h | ⟨v, b, h⟩ <;> rw [h] <;> rfl
+
+-- not vacuous: an answer whose header names ANOTHER (valid) digest is accepted, and reported under the digest asked for
+example : clientDecode id (fun _ => none) (.resolveBlob exDigest)
+    [mkResp 200 [(hContentLength, itoa 5), (hDigest, exDigest2)]] =
+      .desc { mediaType := octetStream, digest := exDigest, size := 5 } := by decide
+example : (Call.getBlob exDigest).requested = some exDigest ∧ exDigest ≠ [] := ⟨rfl, by decide⟩
+
+/-- … and the reader of such an answer does not end cleanly unless the bytes hash to the digest ASKED FOR: the
+defect F31 (bytes that match the header but not the request were delivered with a clean end) is excluded. -/
+theorem read_by_digest_checks_requested (H : Bytes → Bytes) (resolve : Bytes → Option Bytes) (dg : Bytes) (hne : dg ≠ [])
+    (rs : List Resp) (d : Desc) (body content : Bytes) (h0 : 0 ≤ d.size)
+    (h : clientDecode H resolve (.getBlob dg) rs = .reader d true body) (hbad : H content ≠ dg) :
+    (readAll H d true [content]).clean = false := by
+  have hd : d.digest = dg := client_reports_requested_digest H resolve _ dg rfl hne rs d (Or.inr ⟨_, _, h⟩)
+  exact read_dishonest H d content h0 (Or.inr (by rw [hd]; exact hbad))
+
+/-- A tag read is the other case: nothing was asked for, so the (validated) header is what is reported. -/
+theorem tag_read_reports_header (r : Resp) (rs rd : Bool) (d : Desc) (h : descriptorFromResponse r [] rs rd = .ok d) :
+    d.digest = hget r.hdr hDigest := by
+  rw [(descriptorFromResponse_ok h).2.1, if_neg (by simp)]
+
 /-! ## Part 3 — totality: no answer makes the client panic; the server panics only on an upload ID the request
 codec cannot carry -/
 
@@ -739,7 +965,7 @@ theorem missing_digest_refused (r : Resp) (rs : Bool) (h : hget r.hdr hDigest = 
     descriptorFromResponse r [] rs true ≠ .ok d := by
   intro e
   obtain ⟨_, h2, h3⟩ := descriptorFromResponse_ok e
-  rw [h, if_neg (by simp)] at h2
+  rw [if_neg (by simp), h] at h2
   exact h3 ⟨rfl, h2⟩
 
 /-- Call level: a ranged read answered 206 without `Content-Range`, a resolve of a tag answered without digest, a
